@@ -6,6 +6,7 @@ import (
 	"context"
 	"fmt"
 	"io"
+	"sync"
 	"testing"
 	"time"
 
@@ -434,6 +435,16 @@ func TestC16Poller(t *testing.T) {
 			}
 			rounds = append(rounds, rd)
 		}
+		// local progress while a request is in flight: the node's own consensus stores the next
+		// certificates between the poller's catch-up and the arrival of the response
+		midRound, midCount := -1, 0
+		if rapid.IntRange(0, 2).Draw(t, "midprogress") == 0 {
+			midRound = rapid.IntRange(0, nrounds-1).Draw(t, "midround")
+			midCount = rapid.IntRange(1, 3).Draw(t, "midcount")
+		}
+		var midMu sync.Mutex
+		var midErr error
+		midDone := 0
 		reqNo := 0
 		var seenFirst []uint64
 		hs[0].SetStreamHandler(certexchange.FetchProtocolName(nn), func(st network.Stream) {
@@ -450,6 +461,24 @@ func TestC16Poller(t *testing.T) {
 				rd = rounds[reqNo]
 			} else {
 				rd = &round{}
+			}
+			if reqNo == midRound {
+				midMu.Lock()
+				for k := 0; k < midCount; k++ {
+					idx := 0
+					if l := s.st.Latest(); l != nil {
+						idx = int(l.GPBFTInstance + 1 - s.next())
+					}
+					if idx < 0 || idx >= len(future) {
+						break
+					}
+					if err := s.st.Put(ctx, future[idx]); err != nil {
+						midErr = err
+						break
+					}
+					midDone++
+				}
+				midMu.Unlock()
 			}
 			reqNo++
 			hdr := certexchange.ResponseHeader{PendingInstance: rd.pending}
@@ -486,9 +515,27 @@ func TestC16Poller(t *testing.T) {
 		}
 		status := polling.PollMiss
 		received := 0
-		var stored []*certs.FinalityCertificate
+		storeNext := next // the model's store: certificates of s.next()..storeNext-1 are future[0..]
+		tableAt := func(inst uint64) gpbft.PowerEntries {
+			if k := int(inst - s.next()); k > 0 {
+				return futureTables[k-1]
+			}
+			return s.tables[len(s.tables)-1]
+		}
+		modelMid := 0
 	model:
-		for _, rd := range rounds {
+		// (a request beyond the script is answered with an empty response advertising pending 0)
+		for ri, rd := range append(append([]*round(nil), rounds...), &round{}) {
+			// catch-up from the store before every request
+			if storeNext > next {
+				next, table = storeNext, tableAt(storeNext)
+			}
+			if ri == midRound {
+				for k := 0; k < midCount && int(storeNext-s.next()) < len(future); k++ {
+					storeNext++
+					modelMid++
+				}
+			}
 			if rd.pending >= next {
 				status = polling.PollHit
 			}
@@ -509,8 +556,10 @@ func TestC16Poller(t *testing.T) {
 					break model
 				}
 				received++
-				stored = append(stored, c)
 				next, table = r.NextInstance, r.Table
+				if next > storeNext {
+					storeNext = next // newer than everything stored: the poller stores it
+				}
 			}
 			if rd.pending <= next {
 				break
@@ -529,13 +578,18 @@ func TestC16Poller(t *testing.T) {
 		if lat != nil {
 			gotNext = lat.GPBFTInstance + 1
 		}
-		if gotNext != next {
-			vev.Fail(t, c16, "C16/poller/store-advance", "store advanced to next instance %d, the valid prefix ends at %d (started at %d); script %v; status %v err %v", gotNext, next, s.next(), describeRounds(rounds), res.Status, res.Error)
+		midMu.Lock()
+		defer midMu.Unlock()
+		if midErr != nil || midDone != modelMid {
+			t.Fatalf("HARNESS: local progress during the request: %d certificates stored (model %d), error %v", midDone, modelMid, midErr)
 		}
-		for i, c := range stored {
-			g, err := s.st.Get(ctx, s.next()+uint64(local)+uint64(i))
-			if err != nil || !bytes.Equal(certBytes(g), certBytes(c)) {
-				vev.Fail(t, c16, "C16/poller/stored-content", "stored certificate %d is not the validated one (%v)", s.next()+uint64(local)+uint64(i), err)
+		if gotNext != storeNext {
+			vev.Fail(t, c16, "C16/poller/store-advance", "store advanced to next instance %d, the valid prefix (and the node's own progress) ends at %d (started at %d); script %v; status %v err %v", gotNext, storeNext, s.next(), describeRounds(rounds), res.Status, res.Error)
+		}
+		for i := 0; i < int(storeNext-s.next()); i++ {
+			g, err := s.st.Get(ctx, s.next()+uint64(i))
+			if err != nil || !bytes.Equal(certBytes(g), certBytes(future[i])) {
+				vev.Fail(t, c16, "C16/poller/stored-content", "stored certificate %d is not the validated one (%v)", s.next()+uint64(i), err)
 			}
 		}
 		if poller.NextInstance != next {
@@ -547,7 +601,7 @@ func TestC16Poller(t *testing.T) {
 		if res.Status != status {
 			vev.Fail(t, c16, "C16/poller/status", "poll status %v, model says %v; script %v (err %v)", res.Status, status, describeRounds(rounds), res.Error)
 		}
-		vev.Case(c16, vev.Digest("poll", s.first, n, fmt.Sprint(describeRounds(rounds))), anyBad, "poll", "poll-status:"+status.String(), fmt.Sprintf("poll-advanced:%d", min(int(next-s.next())-local, 4)), fmt.Sprintf("local-progress:%d", local), fmt.Sprintf("script-has-bad-item:%v", anyBad))
+		vev.Case(c16, vev.Digest("poll", s.first, n, fmt.Sprint(describeRounds(rounds))), anyBad, "poll", "poll-status:"+status.String(), fmt.Sprintf("poll-advanced:%d", max(0, min(int(next-s.next())-local-modelMid, 4))), fmt.Sprintf("local-progress:%d", local), fmt.Sprintf("local-progress-during-request:%d", modelMid), fmt.Sprintf("script-has-bad-item:%v", anyBad))
 		vev.Sample(c16, func() any {
 			return map[string]any{"kind": "poll", "store_next": s.next(), "script": describeRounds(rounds), "model_next": next, "model_status": status.String(), "requests_seen": seenFirst}
 		})
